@@ -75,12 +75,11 @@ class LexicaseSelection(GeneticStep):
         candidates = list(population)
         evaluator.evaluate(problem, candidates)
         n_cases = problem.number_of_objectives()
-        cases = random.shuffle(list(range(n_cases)))
-
         assert isinstance(problem.minimize, list)
         
         for _ in range(target_size):
             candidates_to_check = candidates.copy()
+            cases = random.shuffle(list(range(n_cases)))
 
             while len(candidates_to_check) > 1 and cases:
                 new_candidates: list[Individual] = list()
